@@ -218,6 +218,22 @@ def write_replay(prop, check, viol_example, sig):
     return p
 
 
+ST_NAMES = ["ground", "escape", "escape_intermediate", "csi_entry", "csi_param", "csi_intermediate", "csi_ignore", "dcs_entry", "dcs_param",
+            "dcs_intermediate", "dcs_passthrough", "dcs_ignore", "osc_string", "sos_pm_apc_string", "mid_utf8_char"]
+STEP_NAMES = ["accept_0", "accept_1", "accept_2", "accept_3", "accept_all", "interrupted", "would_block", "other_error"]
+
+
+def label_array(name, v):
+    """Coverage vectors are written by the monitors as plain arrays; label them for the reader of the evidence."""
+    if len(v) == len(ST_NAMES) and "state" in name:
+        return dict(zip(ST_NAMES, v))
+    if len(v) == len(STEP_NAMES) and "fault_kind" in name:
+        return dict(zip(STEP_NAMES, v))
+    if len(v) > 60:
+        return {"cells": len(v), "cells_exercised": sum(1 for x in v if x), "total_observations": sum(v)}
+    return v
+
+
 class Result:
     """Accumulates lane results for one property run."""
 
@@ -248,7 +264,7 @@ class Result:
         for k, v in (d.get("counters") or {}).items():
             cov[k] = v
         for k, v in (d.get("arrays") or {}).items():
-            cov[k] = v
+            cov[k] = label_array(k, v)
         lane_rec = {
             "lane": lane,
             "verdict": "held",
